@@ -41,20 +41,20 @@ theorem export_sound {md : Items} {bs : Bytes} (hw : Codec.wf (.dict md) = true)
   rw [Sound.parse_ser_norm u (Codec.uniq_encodeValue _ u he hw) hs]
   exact Sound.soundVal_of_valid urlOk (validate_ok urlOk fs hv).1 hw he
 
-theorem dump_err {md : Items} {e : ErrKind} (ho : outsideD07fD07j fs md = true)
+theorem dump_err {md : Items} {e : ErrKind} (ho : outsideD07f fs md = true)
     (h : dump urlOk fs md = .error e) : e = .metainfo := by
-  obtain ⟨h1, h2, h3⟩ := outside_spec fs ho
+  obtain ⟨h1, h2⟩ := outside_spec fs ho
   unfold dump at h
   rcases bind_err h with hv | ⟨_, _, hd⟩
-  · exact validate_err urlOk fs h1 h2 h3 hv
+  · exact validate_err urlOk fs h1 h2 hv
   · exact convertSer_err _ e hd
 
-theorem infoBytes_err {md : Items} {e : ErrKind} (ho : outsideD07fD07j fs md = true)
+theorem infoBytes_err {md : Items} {e : ErrKind} (ho : outsideD07f fs md = true)
     (h : infoBytes urlOk fs md = .error e) : e = .metainfo := by
-  obtain ⟨h1, h2, h3⟩ := outside_spec fs ho
+  obtain ⟨h1, h2⟩ := outside_spec fs ho
   unfold infoBytes at h
   rcases bind_err h with hv | ⟨u, hv, hd⟩
-  · exact validate_err urlOk fs h1 h2 h3 hv
+  · exact validate_err urlOk fs h1 h2 hv
   · cases u
     obtain ⟨vf, hen⟩ := validate_ok urlOk fs hv
     obtain ⟨info, _, cf, _⟩ := vf.ex
@@ -71,7 +71,7 @@ theorem infoBytes_ok_of {md info : Items} {u : BVal} (hv : validate urlOk fs md 
   simp only [bind, Except.bind, (validate_ok urlOk fs hv).2, getE_ok (getItem_dict_s_some hi),
     encodeDict, encodeValue, he, ser, hs, if_true, valueToMetainfo]
 
-theorem magnet_err {md : Items} {e : ErrKind} (ho : outsideD07fD07j fs md = true)
+theorem magnet_err {md : Items} {e : ErrKind} (ho : outsideD07f fs md = true)
     (hm : magnetTailOk urlOk md = true) (h : magnet urlOk fs md = .error e) : e = .metainfo := by
   unfold magnet at h
   rcases bind_err h with h1 | ⟨_, _, h2⟩
@@ -115,5 +115,15 @@ theorem not_metainfo_of_internal {α : Type} {x : Except ErrKind α} (h : isInte
   cases x with
   | ok a => simp [isInternal] at h
   | error e => cases e <;> simp [isInternal] at h ⊢
+
+def isMetainfo {α : Type} : Except ErrKind α → Bool
+  | .error .metainfo => true
+  | _ => false
+
+theorem eq_of_isMetainfo {α : Type} {x : Except ErrKind α} (h : isMetainfo x = true) :
+    x = .error .metainfo := by
+  cases x with
+  | ok a => simp [isMetainfo] at h
+  | error e => cases e <;> simp [isMetainfo] at h ⊢
 
 end Torf.Validate
